@@ -22,6 +22,9 @@ def rules(chk, db):
     chk.rule('ST', 'stream reader primitives move exactly the requested bytes and report the stream state', minimum=3)
     chk.rule('SS', 'stream reader status mapping', minimum=1)
     rwrules.check_stream_class(chk, db, 'nop::StreamReader', 'reader', 'ST', 'SS')
+    # a malformed value inside an entry must fail in the value's own decoder: the frame would otherwise swallow the damage as padding
+    from .. import encrules
+    encrules.read_rules(chk, db, want=('GRD',))
 
 
 def run(chk, db):
